@@ -101,7 +101,7 @@ def job_produce(job):
         sizes1 = run_logged(alg, n1) if k > 0 else []
         path = os.path.join(job["dir"], "state_%s_%d.bin" % (job["tag"], k))
         save_state(path, alg)
-        n2 = T - n1
+        n2 = max(0, T - n1)
         sizes2 = run_logged(alg, n2)
         splits.append({"k": k, "N1": n1, "N2": n2, "file": path, "sizes1": sizes1, "sizes2": sizes2, "mem": signature(alg)})
     return {"T": T, "single_sizes": single_sizes, "single": single, "splits": splits}
